@@ -944,3 +944,294 @@ Section Passed.
           -- intros q [<-|[]] Hcq. congruence.
   Qed.
 End Passed.
+
+(** * 10. controllerOf, in terms of the phase objects the pass leaves / found (C06) *)
+Section CtrlOf.
+  Variable force : bool.
+  Local Notation c := (Build_cfg FObjectSet force).
+
+  Definition reported_final (sw' : sworld) (s : oset) (phs : list phase) (evs : list sev) (k : okey) : Prop :=
+    exists q cur, In q phs /\ ph_class q = true /\ phase_obj_of sw' s q = Some cur /\
+                  controlled_by_uid (op_owners cur) (oi_uid (os_id s)) = true /\ In k (op_ctrlof cur) /\
+                  read_in evs (pobj_name s q).
+
+  Lemma rpm_ctrlof_state s ow prev phs : forall sw acc rem sw' evs rem' ctrlof fph,
+    reconcile_phases_m force sw s ow prev phs acc rem = (sw', evs, rem', MOk ctrlof fph) ->
+    NoDup (local_keys ow phs) ->
+    exists new, ctrlof = acc ++ new /\
+      Forall (fun k => (In k (local_keys ow phs) /\ seen_controlled (sw_w sw') ow k) \/ reported_final sw' s phs evs k) new.
+  Proof.
+    induction phs as [|ph rest IH]; intros sw acc rem sw' evs rem' ctrlof fph H Hnd.
+    - cbn in H. injection H as <- _ _ <- _. exists []. split; [now rewrite app_nil_r|constructor].
+    - rewrite rpm_cons in H. destruct (ph_class ph) eqn:Ecl.
+      + rewrite (local_keys_cons_remote _ _ _ Ecl) in *.
+        destruct (remote_reconcile sw s ph rem) as [[[sw1 e1] rem1] r1] eqn:E1.
+        destruct (remote_reconcile_inv _ _ _ _ _ _ _ _ E1) as (_ & _ & _ & _ & _ & Hres).
+        destruct r1 as [|active failed]; [discriminate|].
+        destruct (remote_step_ok _ _ _ _ _ _ _ _ _ E1) as (cur & Hcur & Hrel & Hown & Hsync).
+        pose proof (relay_active _ _ _ Hrel) as ->.
+        assert (Hread : read_in e1 (pobj_name s ph)).
+        { destruct Hres as (c0 & _ & _ & [Hg|(pa & Hg)]); [left; eauto|right; eauto]. }
+        assert (Hact : forall swf evsf, phase_obj_of swf s ph = Some cur -> read_in evsf (pobj_name s ph) ->
+                  Forall (fun k => (In k (local_keys ow rest) /\ seen_controlled (sw_w swf) ow k) \/ reported_final swf s (ph :: rest) evsf k) (op_ctrlof cur)).
+        { intros swf evsf Hf Hr. apply Forall_forall. intros k Hk. right. exists ph, cur. split; [now left|]. auto. }
+        destruct failed.
+        * injection H as <- <- _ <- _. exists (op_ctrlof cur). split; [reflexivity|]. now apply Hact.
+        * destruct (reconcile_phases_m force sw1 s ow prev rest (acc ++ op_ctrlof cur) rem1) as [[[sw2 e2] rem2] r2] eqn:E2.
+          injection H as <- <- _ ->.
+          destruct (IH _ _ _ _ _ _ _ _ E2 Hnd) as (new & -> & Hnew).
+          exists (op_ctrlof cur ++ new). split; [now rewrite app_assoc|]. apply Forall_app. split.
+          -- apply Hact; [|now apply read_in_app_l]. unfold phase_obj_of in *. eapply rpm_keeps; eauto.
+          -- eapply Forall_impl; [|exact Hnew]. intros k [Hl|(q & cu & Hq & Hc & Hf & Ho & Hk & Hr)]; [now left|right].
+             exists q, cu. split; [now right|]. split; [exact Hc|]. split; [exact Hf|]. split; [exact Ho|]. split; [exact Hk|now apply read_in_app_r].
+      + rewrite (local_keys_cons_local _ _ _ Ecl) in *.
+        pose proof (NoDup_app_r _ _ Hnd) as Hnd_rest. pose proof (NoDup_app_l _ _ Hnd) as Hnd0.
+        destruct (reconcile_phase c idw (sw_w sw) ow prev false (ph_objects ph)) as [[w1 e1] r1] eqn:E1.
+        destruct r1 as [e|vs|actual failed]; [discriminate|discriminate|].
+        pose proof E1 as E1'. unfold reconcile_phase in E1'. destruct (flat_map _ (ph_objects ph)); [|discriminate].
+        destruct (rec_objs_actual force ow prev _ _ _ _ _ _ _ _ E1' Hnd0) as (newa & Ha & Hall & _). cbn in Ha. subst actual.
+        set (mine := map fst (filter (fun ko => is_controller Native (ow_id ow) (snd ko)) newa)) in *.
+        assert (Hmine : forall swf evsf, (forall k, In k (phase_keys ow ph) -> lookup k (w_store (sw_w swf)) = lookup k (w_store w1)) ->
+                  Forall (fun k => (In k (phase_keys ow ph ++ local_keys ow rest) /\ seen_controlled (sw_w swf) ow k) \/ reported_final swf s (ph :: rest) evsf k) mine).
+        { intros swf evsf Hfr. subst mine. apply Forall_forall. intros k Hk. apply in_map_iff in Hk. destruct Hk as ([k0 o] & <- & Hin).
+          apply filter_In in Hin. destruct Hin as [Hin Hc]. rewrite Forall_forall in Hall. destruct (Hall _ Hin) as [Hkin Hl]. cbn in *.
+          left. split; [apply in_or_app; now left|]. exists o. split; [|assumption]. rewrite Hfr; assumption. }
+        destruct failed as [|f fs].
+        * cbv zeta in H.
+          match type of H with context [reconcile_phases_m force ?a s ow prev ?l ?b ?d] =>
+            destruct (reconcile_phases_m force a s ow prev l b d) as [[[sw2 e2] rem2] r2] eqn:E2 end.
+          injection H as <- <- _ ->.
+          destruct (IH _ _ _ _ _ _ _ _ E2 Hnd_rest) as (new & -> & Hnew).
+          exists (mine ++ new). split; [now rewrite app_assoc|]. apply Forall_app. split.
+          -- apply Hmine. intros k Hk. destruct (rpm_inv force _ _ _ _ _ _ _ _ _ _ _ E2) as (_ & _ & _ & _ & Hfr & _).
+             rewrite Hfr; [reflexivity|]. eapply NoDup_app_disj; eauto.
+          -- eapply Forall_impl; [|exact Hnew]. intros k [[Hin Hs]|(q & cu & Hq & Hc & Hf & Ho & Hk & Hr)]; [left; split; [apply in_or_app; now right|assumption]|right].
+             exists q, cu. split; [now right|]. split; [exact Hc|]. split; [exact Hf|]. split; [exact Ho|]. split; [exact Hk|now apply read_in_app_r].
+        * injection H as <- <- _ <- _. exists mine. split; [reflexivity|]. apply Hmine. reflexivity.
+  Qed.
+
+  (** a phase object the loop leaves was there before with the same status.controllerOf, or was created (empty) *)
+  Lemma remote_reconcile_back sw s ph rem sw1 e1 rem1 r kind ns nm p' :
+    remote_reconcile sw s ph rem = (sw1, e1, rem1, r) ->
+    find_phase (sw_phases sw1) kind ns nm = Some p' ->
+    op_ctrlof p' = [] \/ exists p, find_phase (sw_phases sw) kind ns nm = Some p /\ op_ctrlof p = op_ctrlof p'.
+  Proof.
+    intros H Hf.
+    destruct ((phase_kind s =? kind) && (oi_ns (os_id s) =? ns) && (pobj_name s ph =? nm)) eqn:E.
+    2:{ destruct (remote_reconcile_inv _ _ _ _ _ _ _ _ H) as (_ & _ & _ & _ & Hfr & _). rewrite (Hfr _ _ _ E) in Hf. right. eauto. }
+    apply andb_true_iff in E. destruct E as [E E3]. apply andb_true_iff in E. destruct E as [E1 E2].
+    apply N.eqb_eq in E1, E2, E3. subst kind ns nm.
+    unfold remote_reconcile, pobj_name in *. cbn [desired_phase op_id oi_kind oi_ns oi_name op_paused] in H.
+    set (name := join_name (oi_name (os_id s)) (ph_name ph)) in *.
+    destruct (find_phase (sw_phases sw) (phase_kind s) (oi_ns (os_id s)) name) as [cur|] eqn:Ef.
+    - destruct (find_phase_key _ _ _ _ _ Ef) as (Hk & Hns & Hn).
+      destruct (negb _); [injection H as <- _ _ _; right; rewrite Hf in Ef; injection Ef as <-; eauto|].
+      destruct (Bool.eqb _ _); [injection H as <- _ _ _; right; rewrite Hf in Ef; injection Ef as <-; eauto|].
+      injection H as <- _ _ _. cbn [sw_phases with_phases] in Hf.
+      set (cur' := phase_with cur _ _ _ _ _ _) in *.
+      pose proof (find_put_phase_same (sw_phases sw) cur') as Hx. change (op_id cur') with (op_id cur) in Hx.
+      rewrite Hk, Hns, Hn, Hf in Hx. injection Hx as ->. right. exists cur. auto.
+    - injection H as <- _ _ _. cbn [sw_phases with_phases] in Hf. left.
+      match type of Hf with find_phase (put_phase _ ?st) _ _ _ = _ => pose proof (find_put_phase_same (sw_phases sw) st) as Hx end.
+      cbn [op_id stamp_phase desired_phase oi_kind oi_ns oi_name] in Hx. fold name in Hx. rewrite Hf in Hx. injection Hx as ->. reflexivity.
+  Qed.
+
+  Lemma rpm_back s ow prev phs : forall sw acc rem sw' evs rem' r kind ns nm p',
+    reconcile_phases_m force sw s ow prev phs acc rem = (sw', evs, rem', r) ->
+    find_phase (sw_phases sw') kind ns nm = Some p' ->
+    op_ctrlof p' = [] \/ exists p, find_phase (sw_phases sw) kind ns nm = Some p /\ op_ctrlof p = op_ctrlof p'.
+  Proof.
+    induction phs as [|ph rest IH]; intros sw acc rem sw' evs rem' r kind ns nm p' H Hf.
+    - cbn in H. injection H as <- _ _ _. right. eauto.
+    - rewrite rpm_cons in H. destruct (ph_class ph).
+      + destruct (remote_reconcile sw s ph rem) as [[[sw1 e1] rem1] r1] eqn:E1.
+        assert (Hstep : forall q', find_phase (sw_phases sw1) kind ns nm = Some q' ->
+                  op_ctrlof q' = [] \/ exists p, find_phase (sw_phases sw) kind ns nm = Some p /\ op_ctrlof p = op_ctrlof q')
+          by (intros q' Hq'; eapply remote_reconcile_back; eauto).
+        destruct r1 as [|active failed]; [injection H as <- _ _ _; now apply Hstep|].
+        destruct failed; [injection H as <- _ _ _; now apply Hstep|].
+        destruct (reconcile_phases_m force sw1 s ow prev rest (acc ++ active) rem1) as [[[sw2 e2] rem2] r2] eqn:E2.
+        injection H as <- _ _ _. destruct (IH _ _ _ _ _ _ _ _ _ _ _ E2 Hf) as [Hn|(p1 & Hp1 & Hc1)]; [now left|].
+        destruct (Hstep _ Hp1) as [Hn|(p & Hp & Hc)]; [left; congruence|right; exists p; split; [exact Hp|congruence]].
+      + destruct (reconcile_phase c idw (sw_w sw) ow prev false (ph_objects ph)) as [[w1 e1] r1] eqn:E1.
+        destruct r1 as [e|vs|actual failed]; try (injection H as <- _ _ _; right; eauto).
+        destruct failed as [|f fs]; [|injection H as <- _ _ _; right; eauto].
+        cbv zeta in H.
+        match type of H with context [reconcile_phases_m force ?a s ow prev rest ?b ?d] =>
+          destruct (reconcile_phases_m force a s ow prev rest b d) as [[[sw2 e2] rem2] r2] eqn:E2 end.
+        injection H as <- _ _ _. exact (IH _ _ _ _ _ _ _ _ _ _ _ E2 Hf).
+  Qed.
+
+  Lemma final_status_in_transition_eq phs m ctrlof failed :
+    find_cond (os_conds (final_status phs m ctrlof failed)) CInTransition =
+    if in_transition (set_ctrlof m ctrlof) ctrlof
+    then Some (mk_cond (set_ctrlof m ctrlof) CInTransition STrue RInTransition) else None.
+  Proof.
+    unfold final_status. cbn [os_conds set_conds]. rewrite paused_cond_other by discriminate. cbn [os_conds set_conds].
+    set (m1 := set_ctrlof m ctrlof).
+    assert (Hbase : find_cond (if in_transition m1 ctrlof then set_cond (os_conds m1) (mk_cond m1 CInTransition STrue RInTransition)
+                               else remove_cond (os_conds m1) CInTransition) CInTransition =
+                    if in_transition m1 ctrlof then Some (mk_cond m1 CInTransition STrue RInTransition) else None).
+    { destruct (in_transition m1 ctrlof); [apply (find_set_cond_same _ (mk_cond m1 CInTransition STrue RInTransition))|apply find_remove_cond_same]. }
+    destruct failed.
+    - rewrite find_set_cond_other by (cbn; discriminate). exact Hbase.
+    - match goal with |- context [if negb ?a && ?b then _ else _] => destruct (negb a && b) end.
+      + rewrite !find_set_cond_other by (cbn; discriminate). exact Hbase.
+      + rewrite find_set_cond_other by (cbn; discriminate). exact Hbase.
+  Qed.
+End CtrlOf.
+
+(** * 11. Succeeded is never withdrawn from the copy the controller reads (C06), no uniqueness assumed *)
+Section Succeeded2.
+  Variable force : bool.
+  Variables k ns n : N.
+
+  Definition keyed (m : oset) : Prop := oi_kind (os_id m) = k /\ oi_ns (os_id m) = ns /\ oi_name (os_id m) = n.
+  Definition succb (m : oset) : Prop := cond_true (os_conds m) CSucceeded = true.
+  (** the copy a Get returns has Succeeded=True *)
+  Definition okw2 (sw : sworld) : Prop := forall st, find_set (sw_sets sw) k ns n = Some st -> succb st.
+  Definition okm2 (m : oset) : Prop := keyed m /\ succb m.
+
+  Lemma find_del_set_same sets id : find_set (del_set sets id) (oi_kind id) (oi_ns id) (oi_name id) = None.
+  Proof.
+    unfold find_set, del_set. induction sets as [|x xs IH]; cbn; [reflexivity|].
+    unfold oid_eqb. destruct ((oi_kind (os_id x) =? oi_kind id) && (oi_ns (os_id x) =? oi_ns id) && (oi_name (os_id x) =? oi_name id)) eqn:E; cbn; [exact IH|].
+    now rewrite E.
+  Qed.
+
+  Lemma okm2_conds m m' : okm2 m -> os_id m' = os_id m ->
+    find_cond (os_conds m') CSucceeded = find_cond (os_conds m) CSucceeded -> okm2 m'.
+  Proof. intros [Hk Hs] Hid Hc. split; [unfold keyed; now rewrite Hid|]. unfold succb, cond_true in *. now rewrite Hc. Qed.
+
+  Lemma update_status_ok2 sw m sw' m' ok :
+    okw2 sw -> okm2 m -> update_status sw m = (sw', m', ok) -> okw2 sw' /\ okm2 m'.
+  Proof.
+    intros Hw Hm. unfold update_status. destruct Hm as [(Hk1 & Hk2 & Hk3) Hs]. rewrite Hk1, Hk2, Hk3.
+    destruct (find_set (sw_sets sw) k ns n) as [st|] eqn:Ef; [|intros H; injection H as <- <- _; repeat split; auto].
+    destruct (negb _); [intros H; injection H as <- <- _; repeat split; auto|].
+    destruct (status_eqb st m); intros H; injection H as <- <- _; [repeat split; auto|].
+    destruct (find_set_id _ _ _ _ _ Ef) as (Hi1 & Hi2 & Hi3).
+    assert (Hnew : okm2 (with_status st m (w_rv (sw_w sw)))) by (split; [exact (conj Hi1 (conj Hi2 Hi3))|exact Hs]).
+    split; [|exact Hnew]. intros st0 Hf0. cbn [sw_sets] in Hf0.
+    pose proof (find_put_set (sw_sets sw) (with_status st m (w_rv (sw_w sw))) st) as Hp. cbn [os_id with_status] in Hp.
+    rewrite Hi1, Hi2, Hi3 in Hp. rewrite (Hp Ef) in Hf0. injection Hf0 as <-. exact Hs.
+  Qed.
+
+  Lemma patch_finalizer_ok2 sw m fin sw' r :
+    okw2 sw -> okm2 m -> patch_finalizer sw m fin = (sw', r) ->
+    okw2 sw' /\ match r with Some m' => okm2 m' | None => True end.
+  Proof.
+    intros Hw Hm. unfold patch_finalizer. destruct Hm as [(Hk1 & Hk2 & Hk3) Hs]. rewrite Hk1, Hk2, Hk3.
+    destruct (find_set (sw_sets sw) k ns n) as [st|] eqn:Ef; [|intros H; injection H as <- <-; auto].
+    destruct (negb (os_rv st =? os_rv m)); [intros H; injection H as <- <-; auto|].
+    destruct (find_set_id _ _ _ _ _ Ef) as (Hi1 & Hi2 & Hi3).
+    assert (Hnew : okm2 (set_fin st fin (w_rv (sw_w sw)))) by (split; [exact (conj Hi1 (conj Hi2 Hi3))|exact (Hw _ Ef)]).
+    destruct (negb fin && os_deleting st && negb (os_orphan st)); intros H; injection H as <- <-; (split; [|exact Hnew]).
+    - intros st0 Hf0. cbn [sw_sets] in Hf0. pose proof (find_del_set_same (sw_sets sw) (os_id st)) as Hd.
+      rewrite Hi1, Hi2, Hi3 in Hd. rewrite Hd in Hf0. discriminate.
+    - intros st0 Hf0. cbn [sw_sets] in Hf0.
+      pose proof (find_put_set (sw_sets sw) (set_fin st fin (w_rv (sw_w sw))) st) as Hp. cbn [os_id set_fin] in Hp.
+      rewrite Hi1, Hi2, Hi3 in Hp. rewrite (Hp Ef) in Hf0. injection Hf0 as <-. exact (Hw _ Ef).
+  Qed.
+
+  Lemma revision_pass_ok2 sw mem sw1 evs1 mem1 rr :
+    okw2 sw -> okm2 mem -> revision_pass sw mem = (sw1, evs1, mem1, rr) -> okw2 sw1 /\ okm2 mem1.
+  Proof.
+    intros Hw Hm. unfold revision_pass.
+    destruct (negb (Z.eqb (os_revision mem) 0)); [intros H; injection H as <- _ <- _; auto|].
+    destruct (os_prev mem); [intros H; injection H as <- _ <- _; split; [auto|eapply okm2_conds; [exact Hm|reflexivity|reflexivity]]|].
+    destruct (scan_prev _ _ _ _) as [[latest|]|].
+    - destruct (update_status sw (set_revision mem (latest + 1))) as [[sw2 m2] ok] eqn:Eu.
+      intros H; injection H as <- _ <- _. eapply update_status_ok2; [exact Hw| |exact Eu]. eapply okm2_conds; [exact Hm|reflexivity|reflexivity].
+    - intros H; injection H as <- _ <- _; auto.
+    - intros H; injection H as <- _ <- _; auto.
+  Qed.
+
+  Lemma okw2_sets sw sw' : sw_sets sw' = sw_sets sw -> okw2 sw -> okw2 sw'.
+  Proof. unfold okw2. now intros ->. Qed.
+
+  Lemma active_body_ok2 sw evs0 mem sw' evs r :
+    okw2 sw -> okm2 mem -> active_body force sw evs0 mem = (sw', evs, r) -> okw2 sw'.
+  Proof.
+    intros Hw Hm. unfold active_body.
+    destruct (revision_pass sw mem) as [[[sw1 evs1] mem1] rr] eqn:Erev.
+    destruct (revision_pass_ok2 _ _ _ _ _ _ Hw Hm Erev) as [Hw1 Hm1].
+    assert (Hfail : forall (mx : oset) sw2 evsx rs swf evsf rf, okw2 sw2 -> okm2 mx ->
+              (let m' := set_conds mx (set_cond (os_conds mx) (mk_cond mx CAvailable SFalse rs)) in
+               let '(sw'', _, ok) := update_status sw2 m' in
+               (sw'', evsx ++ [status_ev m' ok], if ok then SDone true else SError)) = (swf, evsf, rf) -> okw2 swf).
+    { intros mx sw2 evsx rs swf evsf rf Hw2 Hmx. cbv zeta. destruct (update_status sw2 _) as [[sw3 m3] ok] eqn:Eu.
+      intros H. injection H as <- _ _. eapply update_status_ok2; [exact Hw2| |exact Eu].
+      eapply okm2_conds; [exact Hmx|reflexivity|]. cbn [os_conds set_conds]. apply find_set_cond_other. cbn. discriminate. }
+    destruct rr.
+    - destruct (Nat.ltb 0 (dup_count [] (map (spec_key mem1) (all_objects mem1)))); [intros H; eapply Hfail; eauto|].
+      destruct (reconcile_phases_m force sw1 mem1 (as_owner mem1) _ _ [] (os_remotes mem1)) as [[[sw2 pevs] rem] pr] eqn:Erp.
+      destruct (rpm_inv force _ _ _ _ _ _ _ _ _ _ _ Erp) as (Hsets & _).
+      pose proof (okw2_sets _ _ Hsets Hw1) as Hw2.
+      assert (Hm2 : okm2 (set_remotes mem1 rem)) by (eapply okm2_conds; [exact Hm1|reflexivity|reflexivity]).
+      destruct pr as [e| | |ctrlof failed].
+      + destruct e; try (intros H; eapply Hfail; [exact Hw2|exact Hm2|exact H]); intros H; injection H as <- _ _; exact Hw2.
+      + intros H. injection H as <- _ _. exact Hw2.
+      + intros H; eapply Hfail; [exact Hw2|exact Hm2|exact H].
+      + destruct (update_status sw2 (final_status (sw_phases sw2) (set_remotes mem1 rem) ctrlof failed)) as [[sw3 m3] ok] eqn:Eu.
+        intros H. injection H as <- _ _. eapply update_status_ok2; [exact Hw2| |exact Eu].
+        destruct Hm2 as [Hk Hs]. split; [exact Hk|]. now apply final_status_succeeded.
+    - destruct (update_status sw1 _) as [[sw2 m2] ok] eqn:Eu. intros H. injection H as <- _ _.
+      eapply update_status_ok2; [exact Hw1| |exact Eu].
+      eapply okm2_conds; [exact Hm1|reflexivity|]. cbn [os_conds set_conds]. apply paused_cond_other. discriminate.
+    - intros H. injection H as <- _ _. exact Hw1.
+  Qed.
+
+  Lemma deletion_pass_ok2 sw mem sw' evs r :
+    okw2 sw -> okm2 mem -> deletion_pass force sw mem = (sw', evs, r) -> okw2 sw'.
+  Proof.
+    intros Hw Hm. unfold deletion_pass.
+    set (archived := lifecycle_eqb (os_life mem) LArchived).
+    change (if os_fin mem then if os_orphan mem then (sw, [], TdOk true)
+            else teardown_phases_m force sw mem (as_owner mem) (rev (os_phases mem))
+            else (sw, [], TdOk true)) with (teardown_of force sw mem).
+    destruct (teardown_of force sw mem) as [[sw1 tevs] td] eqn:Etd.
+    assert (Hw1 : okw2 sw1) by (eapply okw2_sets; [eapply teardown_of_sets; eauto|exact Hw]).
+    assert (Hfinish : forall swx evs1 mem1 swf evsf rf,
+       (if negb archived then (swx, evs1, SDone false)
+        else let '(sw'', _, ok) := update_status swx (set_conds mem1 (remove_cond (os_conds mem1) CAvailable)) in
+             (sw'', evs1 ++ [status_ev (set_conds mem1 (remove_cond (os_conds mem1) CAvailable)) ok], if ok then SDone false else SError)) = (swf, evsf, rf) ->
+       okw2 swx -> okm2 mem1 -> okw2 swf).
+    { intros swx evs1 mem1 swf evsf rf. destruct (negb archived); [intros H Hwx Hm1; injection H as <- _ _; exact Hwx|].
+      destruct (update_status swx _) as [[sw2 m2] ok] eqn:Eu. intros H Hwx Hm1. injection H as <- _ _.
+      eapply update_status_ok2; [exact Hwx| |exact Eu].
+      eapply okm2_conds; [exact Hm1|reflexivity|]. cbn [os_conds set_conds]. apply find_remove_cond_other. discriminate. }
+    assert (Harch_ok : forall m0, okm2 m0 -> okm2 (if archived then set_ctrlof (set_conds m0 (set_cond (os_conds m0) (mk_cond m0 CArchived STrue RArchived))) [] else m0)).
+    { intros m0 H0. destruct archived; [|exact H0]. eapply okm2_conds; [exact H0|reflexivity|].
+      cbn [os_conds set_conds set_ctrlof]. apply find_set_cond_other. cbn. discriminate. }
+    destruct td as [|[|]].
+    - intros H. injection H as <- _ _. exact Hw1.
+    - destruct (os_fin mem).
+      + destruct (patch_finalizer sw1 mem false) as [sw2 [mem2|]] eqn:Ep;
+          destruct (patch_finalizer_ok2 _ _ _ _ _ Hw1 Hm Ep) as [Hw2 Hm2].
+        * intros H. eapply Hfinish; [exact H|exact Hw2|]. now apply Harch_ok.
+        * intros H. injection H as <- _ _. exact Hw2.
+      + intros H. eapply Hfinish; [exact H|exact Hw1|]. now apply Harch_ok.
+    - intros H. eapply Hfinish; [exact H|exact Hw1|].
+      destruct archived; [|exact Hm]. eapply okm2_conds; [exact Hm|reflexivity|].
+      cbn [os_conds set_conds]. apply find_set_cond_other. cbn. discriminate.
+  Qed.
+
+  Theorem pass_keeps_succeeded sw m sw' evs r :
+    find_set (sw_sets sw) k ns n = Some m -> succb m ->
+    objectset_pass force sw k ns n = (sw', evs, r) -> okw2 sw'.
+  Proof.
+    intros Ef Hs H.
+    assert (Hw0 : okw2 sw) by (intros st Hst; rewrite Ef in Hst; now injection Hst as <-).
+    assert (Hm : okm2 m) by (split; [exact (find_set_id _ _ _ _ _ Ef)|exact Hs]).
+    unfold objectset_pass in H. rewrite Ef in H.
+    destruct (cond_true (os_conds m) CArchived); [now injection H as <- _ _|].
+    destruct (os_deleting m || lifecycle_eqb (os_life m) LArchived).
+    - eapply deletion_pass_ok2; eauto.
+    - unfold active_pass in H. destruct (os_fin m); [eapply active_body_ok2; eauto|].
+      destruct (patch_finalizer sw m true) as [sw1 [m1|]] eqn:Ep;
+        destruct (patch_finalizer_ok2 _ _ _ _ _ Hw0 Hm Ep) as [Hw1 Hm1].
+      + eapply active_body_ok2; eauto.
+      + now injection H as <- _ _.
+  Qed.
+End Succeeded2.
